@@ -1,14 +1,1109 @@
-// Package c08 is the correspondence area of property C08 (stub: the slice is not built yet).
+// Package c08 corresponds the gRPC-Web bridges (webbridge/grpcweb.go) with the Lean model GB.C08.
+//
+// Every http/ws case runs THROUGH THE REAL HANDLERS: webbridge.GRPCWebBridge.ServeHTTP and
+// webbridge.GRPCWebSocketBridge.ServeHTTP behind httptest servers (HTTP/1.1 and HTTP/2), with a fake
+// routing.GRPCRouter, the real grpcadapter.ProxyForwarder (wrapped only to observe the ServerStream
+// boundary and the call outcome) and a scripted target grpcadapter.ClientConn. Request bodies are
+// generated frame sequences written through an io.Pipe with an explicit chunk pattern; WebSocket
+// sessions use the gorilla/websocket client. The response bytes are emitted raw (for the Lean spec
+// decoder) and decoded by the harness's own decoder (`gd=`), so both decoders check each other.
 package c08
 
 import (
+	"bufio"
+	"bytes"
+	"context"
+	"crypto/tls"
+	"encoding/binary"
+	"encoding/hex"
+	"errors"
+	"fmt"
+	"io"
 	"math/rand"
+	"net/http"
+	"net/http/httptest"
+	"net/textproto"
+	"net/url"
+	"sort"
+	"strconv"
+	"strings"
+	"sync"
+	"sync/atomic"
+	"time"
+
+	"github.com/gorilla/websocket"
+	"github.com/renbou/grpcbridge/bridgedesc"
+	"github.com/renbou/grpcbridge/bridgelog"
+	"github.com/renbou/grpcbridge/grpcadapter"
+	"github.com/renbou/grpcbridge/routing"
+	"github.com/renbou/grpcbridge/webbridge"
+	"google.golang.org/grpc"
+	"google.golang.org/grpc/codes"
+	"google.golang.org/grpc/metadata"
+	"google.golang.org/grpc/status"
+	"google.golang.org/protobuf/proto"
+	"google.golang.org/protobuf/protoadapt"
+	"google.golang.org/protobuf/types/known/emptypb"
+
+	"verif/harness/common"
 )
 
 type Area struct{}
 
 func (Area) Name() string { return "c08" }
 
-func (Area) Exec(input string) string { return "UNIMPLEMENTED" }
+// ---------------------------------------------------------------------------------------------
+// compact bytes: "x" + segments joined by "."; a segment is hex or "<hh>*<n>" (n copies of hh)
 
-func (Area) Gen(r *rand.Rand, tier string, emit func(string)) {}
+const rleMin = 24
+
+func CB(b []byte) string {
+	var sb strings.Builder
+	sb.WriteByte('x')
+	first := true
+	sep := func() {
+		if !first {
+			sb.WriteByte('.')
+		}
+		first = false
+	}
+	lit := 0 // start of pending literal
+	i := 0
+	for i < len(b) {
+		j := i
+		for j < len(b) && b[j] == b[i] {
+			j++
+		}
+		if j-i >= rleMin {
+			if i > lit {
+				sep()
+				sb.WriteString(hex.EncodeToString(b[lit:i]))
+			}
+			sep()
+			fmt.Fprintf(&sb, "%02x*%d", b[i], j-i)
+			lit = j
+		}
+		i = j
+	}
+	if len(b) > lit {
+		sep()
+		sb.WriteString(hex.EncodeToString(b[lit:]))
+	}
+	return sb.String()
+}
+
+func UnCB(s string) []byte {
+	if !strings.HasPrefix(s, "x") {
+		panic("not compact bytes: " + s)
+	}
+	var out []byte
+	for _, seg := range strings.Split(s[1:], ".") {
+		if i := strings.IndexByte(seg, '*'); i >= 0 {
+			bb, err := hex.DecodeString(seg[:i])
+			n, err2 := strconv.Atoi(seg[i+1:])
+			if err != nil || err2 != nil || len(bb) != 1 {
+				panic("bad segment " + seg)
+			}
+			out = append(out, bytes.Repeat(bb, n)...)
+		} else {
+			bb, err := hex.DecodeString(seg)
+			if err != nil {
+				panic("bad segment " + seg)
+			}
+			out = append(out, bb...)
+		}
+	}
+	return out
+}
+
+func cbList(bs [][]byte) string {
+	if len(bs) == 0 {
+		return "-"
+	}
+	ss := make([]string, len(bs))
+	for i, b := range bs {
+		ss[i] = CB(b)
+	}
+	return strings.Join(ss, ",")
+}
+
+func unList(s string) []string {
+	if s == "-" || s == "" {
+		return nil
+	}
+	return strings.Split(s, ",")
+}
+
+func unCBList(s string) [][]byte {
+	var out [][]byte
+	for _, x := range unList(s) {
+		out = append(out, UnCB(x))
+	}
+	return out
+}
+
+func kvs(fields []string) map[string]string {
+	m := map[string]string{}
+	for _, f := range fields {
+		if i := strings.IndexByte(f, '='); i > 0 {
+			m[f[:i]] = f[i+1:]
+		}
+	}
+	return m
+}
+
+// ---------------------------------------------------------------------------------------------
+// message codecs: both are the identity between wire payload and message
+
+// rawMsg is a legacy (APIv1) message with custom Marshal/Unmarshal: any byte string is a valid payload.
+type rawMsg struct{ B []byte }
+
+func (m *rawMsg) Reset()                   { m.B = nil }
+func (m *rawMsg) String() string           { return fmt.Sprintf("raw[%d]", len(m.B)) }
+func (*rawMsg) ProtoMessage()              {}
+func (m *rawMsg) Marshal() ([]byte, error) { return m.B, nil }
+func (m *rawMsg) Unmarshal(b []byte) error { m.B = append([]byte{}, b...); return nil }
+
+type rawMessage struct{}
+
+func (rawMessage) New() proto.Message { return protoadapt.MessageV2Of(&rawMsg{}) }
+
+func messageType(codec string) bridgedesc.Message {
+	if codec == "empty" {
+		// exactly what ServiceRouter.RouteGRPC hands out (bridgedesc.DummyMethod): emptypb.Empty keeps the
+		// payload as unknown fields, verbatim
+		return bridgedesc.ConcreteMessage[emptypb.Empty]()
+	}
+	return rawMessage{}
+}
+
+// ---------------------------------------------------------------------------------------------
+// scenario = one scripted call
+
+type scenario struct {
+	path   string
+	kind   string
+	rt     string
+	rs     [][]byte
+	fsCode uint32
+	fsMsg  []byte
+	tm     [][2]string
+	early  int
+	method *bridgedesc.Method
+
+	mu        sync.Mutex
+	rv        []string
+	tg        [][]byte
+	te        string
+	sd        [][]byte
+	sdFail    int
+	tr        string
+	oc        string
+	wake      chan struct{}
+	closeSend bool
+	done      chan struct{}
+}
+
+var (
+	registry sync.Map // path -> *scenario
+	seq      atomic.Int64
+)
+
+func newScenario(kv map[string]string) *scenario {
+	id := seq.Add(1)
+	sc := &scenario{kind: kv["k"], rt: kv["rt"], early: -1, te: "none", oc: "-", tr: "-", wake: make(chan struct{}), done: make(chan struct{})}
+	switch {
+	case sc.rt == "real":
+		sc.path = fmt.Sprintf("/c08.Unknown/M%d", id)
+	default:
+		sc.path = fmt.Sprintf("/c08.Svc/M%d", id)
+	}
+	sc.rs = unCBList(kv["rs"])
+	if c, m, ok := strings.Cut(kv["fs"], ":"); ok {
+		n, _ := strconv.ParseUint(c, 10, 32)
+		sc.fsCode = uint32(n)
+		sc.fsMsg = UnCB(m)
+	}
+	for _, it := range unList(kv["tm"]) {
+		k, v, _ := strings.Cut(it, ":")
+		sc.tm = append(sc.tm, [2]string{string(UnCB(k)), string(UnCB(v))})
+	}
+	if kv["ea"] != "-" && kv["ea"] != "" {
+		sc.early, _ = strconv.Atoi(kv["ea"])
+	}
+	mt := messageType(kv["cd"])
+	sc.method = &bridgedesc.Method{
+		RPCName:         sc.path,
+		Input:           mt,
+		Output:          mt,
+		ClientStreaming: sc.kind == "cs" || sc.kind == "bd",
+		ServerStreaming: sc.kind == "ss" || sc.kind == "bd",
+	}
+	registry.Store(sc.path, sc)
+	return sc
+}
+
+func lookup(path string) *scenario {
+	v, ok := registry.Load(path)
+	if !ok {
+		return nil
+	}
+	return v.(*scenario)
+}
+
+func (sc *scenario) signal() { // with mu held
+	close(sc.wake)
+	sc.wake = make(chan struct{})
+}
+
+func errCode(err error) uint32 {
+	return uint32(status.Convert(err).Code())
+}
+
+func outcome(err error) string {
+	st := status.Convert(err)
+	return fmt.Sprintf("%d:%s", uint32(st.Code()), CB([]byte(st.Message())))
+}
+
+// ---------------------------------------------------------------------------------------------
+// fake router (+ the real ServiceRouter for rt=real), observing forwarder, scripted target
+
+type emptyPool struct{}
+
+func (emptyPool) Get(string) (grpcadapter.ClientConn, bool) { return nil, false }
+
+var realRouter = routing.NewServiceRouter(emptyPool{}, routing.ServiceRouterOpts{})
+
+type router struct{}
+
+func (router) RouteGRPC(ctx context.Context) (grpcadapter.ClientConn, routing.GRPCRoute, error) {
+	m, _ := grpc.Method(ctx)
+	sc := lookup(m)
+	if sc == nil {
+		return nil, routing.GRPCRoute{}, status.Error(codes.Internal, "c08 harness: unknown scenario")
+	}
+	var err error
+	switch {
+	case sc.rt == "ok":
+		return &targetConn{sc}, routing.GRPCRoute{
+			Target:  &bridgedesc.Target{Name: "c08-target"},
+			Service: &bridgedesc.Service{Name: "c08.Svc"},
+			Method:  sc.method,
+		}, nil
+	case sc.rt == "real":
+		_, _, err = realRouter.RouteGRPC(ctx)
+		if err == nil {
+			err = status.Error(codes.Internal, "c08 harness: real router routed an unknown service")
+		}
+	case strings.HasPrefix(sc.rt, "plain:"):
+		err = errors.New(string(UnCB(sc.rt[len("plain:"):])))
+	default:
+		c, msg, _ := strings.Cut(sc.rt, ":")
+		n, _ := strconv.ParseUint(c, 10, 32)
+		err = status.Error(codes.Code(n), string(UnCB(msg)))
+	}
+	sc.mu.Lock()
+	sc.oc = outcome(err)
+	sc.mu.Unlock()
+	return nil, routing.GRPCRoute{}, err
+}
+
+// recFwd runs the real forwarder and records what crosses the ServerStream interface and the outcome.
+type recFwd struct{ inner grpcadapter.Forwarder }
+
+func (f recFwd) Forward(ctx context.Context, p grpcadapter.ForwardParams) error {
+	sc := lookup(p.Method.RPCName)
+	p.Incoming = &recStream{inner: p.Incoming, sc: sc}
+	err := f.inner.Forward(ctx, p)
+	sc.mu.Lock()
+	sc.oc = outcome(err)
+	sc.mu.Unlock()
+	return err
+}
+
+type recStream struct {
+	inner grpcadapter.ServerStream
+	sc    *scenario
+}
+
+func (s *recStream) Recv(ctx context.Context, msg proto.Message) error {
+	err := s.inner.Recv(ctx, msg)
+	var rec string
+	switch {
+	case err == nil:
+		b, _ := proto.Marshal(msg)
+		rec = "m:" + CB(b)
+	case errors.Is(err, io.EOF):
+		rec = "eof"
+	default:
+		rec = fmt.Sprintf("e:%d", errCode(err))
+	}
+	s.sc.mu.Lock()
+	s.sc.rv = append(s.sc.rv, rec)
+	s.sc.mu.Unlock()
+	return err
+}
+
+// Send records the messages the stream accepted (Send returned nil), in order.
+func (s *recStream) Send(ctx context.Context, msg proto.Message) error {
+	b, _ := proto.Marshal(msg)
+	err := s.inner.Send(ctx, msg)
+	s.sc.mu.Lock()
+	if err == nil {
+		s.sc.sd = append(s.sc.sd, b)
+	} else {
+		s.sc.sdFail++
+	}
+	s.sc.mu.Unlock()
+	return err
+}
+
+func (s *recStream) SetHeader(md metadata.MD) { s.inner.SetHeader(md) }
+
+// SetTrailer records the trailer metadata the forwarder hands to the stream (flattened, sorted).
+func (s *recStream) SetTrailer(md metadata.MD) {
+	var items []string
+	for k, vs := range md {
+		for _, v := range vs {
+			items = append(items, CB([]byte(k))+":"+CB([]byte(v)))
+		}
+	}
+	sort.Strings(items)
+	s.sc.mu.Lock()
+	s.sc.tr = "-"
+	if len(items) > 0 {
+		s.sc.tr = strings.Join(items, ",")
+	}
+	s.sc.mu.Unlock()
+	s.inner.SetTrailer(md)
+}
+
+type targetConn struct{ sc *scenario }
+
+func (c *targetConn) Stream(ctx context.Context, method string) (grpcadapter.ClientStream, error) {
+	c.sc.mu.Lock()
+	c.sc.te = "open"
+	c.sc.mu.Unlock()
+	return &targetStream{sc: c.sc}, nil
+}
+func (c *targetConn) Close() {}
+
+// targetStream: records every request message; answers with the scripted responses and final status once
+// the client side is closed (CloseSend), or — early mode — once `early` request messages have arrived.
+type targetStream struct {
+	sc   *scenario
+	next int
+}
+
+func (t *targetStream) Send(ctx context.Context, msg proto.Message) error {
+	b, err := proto.Marshal(msg)
+	if err != nil {
+		return err
+	}
+	t.sc.mu.Lock()
+	t.sc.tg = append(t.sc.tg, b)
+	t.sc.signal()
+	t.sc.mu.Unlock()
+	return nil
+}
+
+func (t *targetStream) Recv(ctx context.Context, msg proto.Message) error {
+	for {
+		t.sc.mu.Lock()
+		ready := t.sc.closeSend || (t.sc.early >= 0 && len(t.sc.tg) >= t.sc.early)
+		ch := t.sc.wake
+		t.sc.mu.Unlock()
+		if ready {
+			break
+		}
+		select {
+		case <-ch:
+		case <-ctx.Done():
+			return status.FromContextError(ctx.Err()).Err()
+		}
+	}
+	if t.next < len(t.sc.rs) {
+		b := t.sc.rs[t.next]
+		t.next++
+		return proto.Unmarshal(b, msg)
+	}
+	if t.sc.fsCode == 0 {
+		return io.EOF
+	}
+	return status.Error(codes.Code(t.sc.fsCode), string(t.sc.fsMsg))
+}
+
+func (t *targetStream) Header() metadata.MD { return metadata.MD{} }
+
+func (t *targetStream) Trailer() metadata.MD {
+	md := metadata.MD{}
+	for _, kv := range t.sc.tm {
+		md.Append(kv[0], kv[1])
+	}
+	return md
+}
+
+func (t *targetStream) CloseSend() {
+	t.sc.mu.Lock()
+	t.sc.closeSend = true
+	t.sc.te = "eof"
+	t.sc.signal()
+	t.sc.mu.Unlock()
+}
+
+func (t *targetStream) Close() {}
+
+// ---------------------------------------------------------------------------------------------
+// servers
+
+var (
+	srvOnce sync.Once
+	srvH1   *httptest.Server
+	srvH2   *httptest.Server
+	cliH1   *http.Client
+	cliH2   *http.Client
+)
+
+// trailer metadata keys the forwarder's filter lets through (the filter itself is C07's subject)
+var allowTrailer = []string{"x-t", "x-u", "grpc-status", "grpc-message"}
+
+func servers() {
+	srvOnce.Do(func() {
+		fwd := recFwd{grpcadapter.NewProxyForwarder(grpcadapter.ProxyForwarderOpts{
+			Filter: grpcadapter.NewProxyMDFilter(grpcadapter.ProxyMDFilterOpts{AllowTrailerMD: allowTrailer}),
+		})}
+		opts := webbridge.GRPCWebBridgeOpts{Logger: bridgelog.Discard(), Forwarder: fwd}
+		web := webbridge.NewGRPCWebBridge(router{}, opts)
+		wsb := webbridge.NewGRPCWebSocketBridge(router{}, opts)
+		h := http.HandlerFunc(func(w http.ResponseWriter, r *http.Request) {
+			sc := lookup(r.URL.Path)
+			if sc != nil {
+				defer close(sc.done)
+			}
+			if strings.EqualFold(r.Header.Get("Upgrade"), "websocket") {
+				wsb.ServeHTTP(w, r)
+			} else {
+				web.ServeHTTP(w, r)
+			}
+		})
+		srvH1 = httptest.NewServer(h)
+		cliH1 = &http.Client{Transport: &http.Transport{DisableKeepAlives: true}, Timeout: 120 * time.Second}
+		srvH2 = httptest.NewUnstartedServer(h)
+		srvH2.EnableHTTP2 = true
+		srvH2.StartTLS()
+		cliH2 = srvH2.Client()
+		cliH2.Timeout = 120 * time.Second
+		if tr, ok := cliH2.Transport.(*http.Transport); ok {
+			tr.TLSClientConfig.InsecureSkipVerify = true
+			_ = tls.VersionTLS12
+		}
+	})
+}
+
+// ---------------------------------------------------------------------------------------------
+// client side encoders / decoder (independent of the bridge's code)
+
+func encFrame(desc string) []byte {
+	p := strings.SplitN(desc, ":", 3)
+	fl, _ := hex.DecodeString(p[0])
+	payload := UnCB(p[2])
+	n := uint32(len(payload))
+	if p[1] != "=" {
+		v, _ := strconv.ParseUint(p[1], 10, 64)
+		n = uint32(v)
+	}
+	out := make([]byte, 5, 5+len(payload))
+	out[0] = fl[0]
+	binary.BigEndian.PutUint32(out[1:], n)
+	return append(out, payload...)
+}
+
+func encWSItem(desc string) []byte {
+	switch {
+	case desc == "f":
+		return []byte{1}
+	case strings.HasPrefix(desc, "d:"):
+		p := UnCB(desc[2:])
+		out := make([]byte, 6, 6+len(p))
+		binary.BigEndian.PutUint32(out[2:], uint32(len(p)))
+		return append(out, p...)
+	case strings.HasPrefix(desc, "r:"):
+		return UnCB(desc[2:])
+	}
+	panic("bad ws item " + desc)
+}
+
+// goDecode is the harness's own gRPC-Web response decoder: data frames, then exactly one trailer frame (last),
+// trailer parsed as a MIME header block, grpc-message percent-decoded with net/url.
+func goDecode(body []byte) string {
+	n := 0
+	var trailer []byte
+	seen := false
+	for len(body) > 0 {
+		if seen || len(body) < 5 {
+			return "bad"
+		}
+		l := int(binary.BigEndian.Uint32(body[1:5]))
+		if len(body)-5 < l {
+			return "bad"
+		}
+		switch body[0] {
+		case 0x00:
+			n++
+		case 0x80:
+			seen = true
+			trailer = body[5 : 5+l]
+		default:
+			return "bad"
+		}
+		body = body[5+l:]
+	}
+	if !seen {
+		return "bad"
+	}
+	// count raw lines per key, then read values through net/textproto
+	hdr, err := textproto.NewReader(bufio.NewReader(bytes.NewReader(append(append([]byte{}, trailer...), '\r', '\n')))).ReadMIMEHeader()
+	if err != nil {
+		return "bad"
+	}
+	st, msg := hdr.Values("Grpc-Status"), hdr.Values("Grpc-Message")
+	if len(st) != 1 || len(msg) != 1 {
+		return "bad"
+	}
+	un, err := url.PathUnescape(msg[0])
+	if err != nil {
+		return "bad"
+	}
+	return fmt.Sprintf("ok:%d:%s:%s", n, common.HexS(st[0]), common.HexS(un))
+}
+
+// ---------------------------------------------------------------------------------------------
+// Exec
+
+func (Area) Exec(input string) string {
+	f := strings.Fields(input)
+	switch f[0] {
+	case "esc":
+		s := string(UnCB(f[1]))
+		e := url.PathEscape(s)
+		un, err := url.PathUnescape(e)
+		if err != nil {
+			return CB([]byte(e)) + " err"
+		}
+		return CB([]byte(e)) + " ok:" + common.HexS(un)
+	case "unesc":
+		un, err := url.PathUnescape(string(UnCB(f[1])))
+		if err != nil {
+			return "err"
+		}
+		return "ok:" + common.HexS(un)
+	case "trl":
+		code, _ := strconv.ParseUint(f[1], 10, 32)
+		md := metadata.MD{}
+		for _, it := range unList(f[3]) {
+			k, v, _ := strings.Cut(it, ":")
+			md.Append(string(UnCB(k)), string(UnCB(v)))
+		}
+		st := status.New(codes.Code(code), string(UnCB(f[2])))
+		return CB(webbridge.VerifLpmTrailer(webbridge.VerifTrailerWithStatus(md, st)))
+	case "http":
+		return execHTTP(f[1], kvs(f[2:]))
+	case "ws":
+		return execWS(kvs(f[1:]))
+	}
+	return "BADOP"
+}
+
+func (sc *scenario) wait(d time.Duration) bool {
+	select {
+	case <-sc.done:
+		return true
+	case <-time.After(d):
+		return false
+	}
+}
+
+func (sc *scenario) observed() string {
+	sc.mu.Lock()
+	defer sc.mu.Unlock()
+	rv := "-"
+	if len(sc.rv) > 0 {
+		rv = strings.Join(sc.rv, ",")
+	}
+	return fmt.Sprintf("rv=%s tg=%s te=%s sd=%s sf=%d tr=%s oc=%s", rv, cbList(sc.tg), sc.te, cbList(sc.sd), sc.sdFail, sc.tr, sc.oc)
+}
+
+func chunkPattern(s string) []int {
+	var out []int
+	for _, p := range strings.Split(s, "/") {
+		n, _ := strconv.Atoi(p)
+		if n > 0 {
+			out = append(out, n)
+		}
+	}
+	if len(out) == 0 {
+		out = []int{1 << 20}
+	}
+	return out
+}
+
+func execHTTP(ver string, kv map[string]string) string {
+	servers()
+	sc := newScenario(kv)
+	defer registry.Delete(sc.path)
+
+	var wire []byte
+	for _, fd := range unList(kv["fr"]) {
+		wire = append(wire, encFrame(fd)...)
+	}
+	wire = append(wire, UnCB(kv["tl"])...)
+
+	srv, cli := srvH1, cliH1
+	if ver == "h2" {
+		srv, cli = srvH2, cliH2
+	}
+	pr, pw := io.Pipe()
+	pat := chunkPattern(kv["ck"])
+	go func() {
+		rest := wire
+		for i := 0; len(rest) > 0; i++ {
+			n := min(pat[i%len(pat)], len(rest))
+			if _, err := pw.Write(rest[:n]); err != nil {
+				return // the server stopped reading (early end of the call)
+			}
+			rest = rest[n:]
+		}
+		pw.Close()
+	}()
+	req, _ := http.NewRequest(http.MethodPost, srv.URL+sc.path, pr)
+	req.Header.Set("Content-Type", "application/grpc-web+proto")
+	req.Header.Set("X-Grpc-Web", "1")
+	resp, err := cli.Do(req)
+	if err != nil {
+		pr.CloseWithError(err)
+		if !sc.wait(5 * time.Second) {
+			return "HANG client error " + common.HexS(err.Error())
+		}
+		return "CLIENTERR " + common.HexS(err.Error())
+	}
+	body, rerr := io.ReadAll(resp.Body)
+	resp.Body.Close()
+	pr.CloseWithError(io.ErrClosedPipe)
+	if !sc.wait(30 * time.Second) {
+		return "HANG"
+	}
+	if rerr != nil {
+		return "CLIENTERR " + common.HexS(rerr.Error())
+	}
+	return fmt.Sprintf("st=%d %s body=%s gd=%s", resp.StatusCode, sc.observed(), CB(body), goDecode(body))
+}
+
+func execWS(kv map[string]string) string {
+	servers()
+	sc := newScenario(kv)
+	defer registry.Delete(sc.path)
+
+	_, hdS, _ := strings.Cut(kv["hd"], ":")
+	msgs := [][]byte{UnCB(hdS)}
+	for _, it := range unList(kv["ms"]) {
+		msgs = append(msgs, encWSItem(it))
+	}
+
+	d := websocket.Dialer{Subprotocols: []string{"grpc-websockets"}, HandshakeTimeout: 20 * time.Second,
+		ReadBufferSize: 1 << 16, WriteBufferSize: 1 << 16}
+	c, resp, err := d.Dial("ws"+strings.TrimPrefix(srvH1.URL, "http")+sc.path, nil)
+	if err != nil {
+		code := 0
+		if resp != nil {
+			code = resp.StatusCode
+		}
+		sc.wait(5 * time.Second)
+		return fmt.Sprintf("up=%d ws=- cl=none %s", code, sc.observed())
+	}
+	defer c.Close()
+	// the default handler answers the close frame and turns a failure of that write (the server has already
+	// closed the TCP connection) into the read error; the close code is what we want to observe
+	c.SetCloseHandler(func(int, string) error { return nil })
+
+	var got [][]byte
+	cl := "none"
+	rdone := make(chan struct{})
+	go func() {
+		defer close(rdone)
+		_ = c.SetReadDeadline(time.Now().Add(60 * time.Second))
+		for {
+			mt, data, err := c.ReadMessage()
+			if err != nil {
+				var ce *websocket.CloseError
+				if errors.As(err, &ce) {
+					cl = strconv.Itoa(ce.Code)
+				} else {
+					cl = "err"
+				}
+				return
+			}
+			if mt != websocket.BinaryMessage {
+				got = append(got, append([]byte("TEXT:"), data...))
+				continue
+			}
+			got = append(got, data)
+		}
+	}()
+	for _, m := range msgs {
+		_ = c.SetWriteDeadline(time.Now().Add(30 * time.Second))
+		if err := c.WriteMessage(websocket.BinaryMessage, m); err != nil {
+			break // the server closed already
+		}
+	}
+	select {
+	case <-rdone:
+	case <-time.After(60 * time.Second):
+		return "HANG reader"
+	}
+	c.Close()
+	if !sc.wait(30 * time.Second) {
+		return "HANG"
+	}
+	return fmt.Sprintf("up=%d ws=%s cl=%s %s", resp.StatusCode, cbList(got), cl, sc.observed())
+}
+
+// ---------------------------------------------------------------------------------------------
+// Gen
+
+var dist = map[string]int{}
+var distMu sync.Mutex
+
+func (Area) Extra() map[string]any {
+	distMu.Lock()
+	defer distMu.Unlock()
+	keys := make([]string, 0, len(dist))
+	for k := range dist {
+		keys = append(keys, k)
+	}
+	sort.Strings(keys)
+	out := map[string]any{}
+	for _, k := range keys {
+		out[k] = dist[k]
+	}
+	return map[string]any{"generator_distribution": out}
+}
+
+func count(k string) {
+	distMu.Lock()
+	dist[k]++
+	distMu.Unlock()
+}
+
+var msgAlphabets = [][]byte{
+	[]byte("abcXYZ019-_.~"),
+	[]byte("$&+:=@/;,? %"),
+	[]byte("\r\n\t\x00\x7f\x1f"),
+	[]byte("\xc3\xa9\xe2\x82\xac\xf0\x9f\x98\x80\xff\xfe\x80"),
+	nil,
+}
+
+func randMsgText(r *rand.Rand) []byte {
+	switch r.Intn(8) {
+	case 0:
+		return nil
+	case 1:
+		return []byte(common.Pick(r, []string{"not found", "héllo wörld €", "100% sure", "a\r\nb", "grpc-status: 0\r\nx: y", "%zz", "日本語", "a+b c/d?e", "\x00\x01\x02"}))
+	}
+	n := r.Intn(24)
+	var out []byte
+	for len(out) < n {
+		out = append(out, common.RandBytes(r, 1+r.Intn(4), common.Pick(r, msgAlphabets))...)
+	}
+	return out
+}
+
+func randCode(r *rand.Rand) uint32 {
+	switch r.Intn(10) {
+	case 0, 1, 2, 3, 4:
+		return 0
+	case 5:
+		return common.Pick(r, []uint32{17, 99, 1000, 4294967295})
+	default:
+		return uint32(1 + r.Intn(16))
+	}
+}
+
+// validWire builds a payload of exactly n bytes (n != 1) that is valid protobuf wire format
+func validWire(r *rand.Rand, n int) []byte {
+	if n <= 0 {
+		return nil
+	}
+	if n == 1 {
+		n = 2
+	}
+	if n%2 == 0 && n <= 16 && r.Intn(2) == 0 { // varint fields
+		var out []byte
+		for len(out) < n {
+			out = append(out, byte(8*(1+r.Intn(15))), byte(r.Intn(128)))
+		}
+		return out
+	}
+	// one length-delimited field 1..15 with the rest as content
+	for hl := 2; hl <= 6; hl++ {
+		c := n - hl
+		if c < 0 {
+			break
+		}
+		var lenb []byte
+		v := uint64(c)
+		for v >= 0x80 {
+			lenb = append(lenb, byte(v)|0x80)
+			v >>= 7
+		}
+		lenb = append(lenb, byte(v))
+		if 1+len(lenb) == hl {
+			out := append([]byte{byte(8*(1+r.Intn(15)) + 2)}, lenb...)
+			return append(out, payloadBytes(r, c)...)
+		}
+	}
+	return []byte{8, 1}
+}
+
+// payloadBytes: small payloads random, large ones run-structured so the case line stays short
+func payloadBytes(r *rand.Rand, n int) []byte {
+	if n <= 600 {
+		if r.Intn(4) == 0 {
+			return bytes.Repeat([]byte{byte(r.Intn(256))}, n)
+		}
+		return common.RandBytes(r, n, nil)
+	}
+	out := make([]byte, 0, n)
+	for len(out) < n {
+		run := min(n-len(out), 1+r.Intn(n))
+		if r.Intn(3) == 0 && run > 40 {
+			out = append(out, common.RandBytes(r, 8, nil)...)
+			run -= 8
+		}
+		out = append(out, bytes.Repeat([]byte{byte(r.Intn(256))}, run)...)
+	}
+	return out[:n]
+}
+
+func randSize(r *rand.Rand) int {
+	switch r.Intn(20) {
+	case 0, 1, 2, 3:
+		return 0
+	case 4, 5, 6, 7, 8:
+		return common.Pick(r, []int{1, 2, 4, 5, 6, 7, 8})
+	case 9, 10, 11, 12, 13, 14:
+		return r.Intn(300)
+	case 15, 16, 17:
+		return 127 + r.Intn(3) + 128*r.Intn(2)*127 // around varint / 16384 boundaries
+	case 18:
+		return 32768 + r.Intn(40000)
+	default:
+		return common.Pick(r, []int{255, 256, 257, 65535, 65536, 65537})
+	}
+}
+
+func payload(r *rand.Rand, codec string, n int) []byte {
+	if codec == "empty" {
+		return validWire(r, n)
+	}
+	return payloadBytes(r, n)
+}
+
+func genScript(r *rand.Rand, codec string) string {
+	nr := common.Pick(r, []int{0, 1, 1, 1, 2, 3, 5})
+	var rs [][]byte
+	for i := 0; i < nr; i++ {
+		rs = append(rs, payload(r, codec, randSize(r)))
+	}
+	code := randCode(r)
+	var msg []byte
+	if code != 0 {
+		msg = randMsgText(r)
+	}
+	tm := "-"
+	switch r.Intn(10) {
+	case 0:
+		tm = CB([]byte("x-t")) + ":" + CB([]byte("v1"))
+	case 1:
+		tm = CB([]byte("x-t")) + ":" + CB([]byte("a b")) + "," + CB([]byte("x-t")) + ":" + CB([]byte("c")) + "," + CB([]byte("x-u")) + ":" + CB(nil)
+	case 2:
+		tm = CB([]byte("grpc-status")) + ":" + CB([]byte("0")) + "," + CB([]byte("grpc-message")) + ":" + CB([]byte("fake"))
+	}
+	return fmt.Sprintf("rs=%s fs=%d:%s tm=%s", cbList(rs), code, CB(msg), tm)
+}
+
+func genRoute(r *rand.Rand) string {
+	switch r.Intn(25) {
+	case 0, 1:
+		return fmt.Sprintf("%d:%s", 1+r.Intn(16), CB(randMsgText(r)))
+	case 2:
+		return "plain:" + CB(randMsgText(r))
+	case 3:
+		return "real"
+	}
+	return "ok"
+}
+
+func genHTTP(r *rand.Rand) string {
+	ver := common.Pick(r, []string{"h1", "h1", "h2"})
+	kind := common.Pick(r, []string{"uu", "cs", "ss", "bd", "bd", "cs"})
+	codec := common.Pick(r, []string{"raw", "raw", "empty"})
+	nf := common.Pick(r, []int{0, 1, 1, 2, 3, 4, 6})
+	if kind == "uu" || kind == "ss" {
+		nf = common.Pick(r, []int{0, 1, 1, 1, 2})
+	}
+	var frs []string
+	total := 0
+	malformed := r.Intn(4) == 0
+	if malformed {
+		codec = "raw" // a desynchronised stream is not valid wire format any more; the model's codec is the identity
+	}
+	bad := -1
+	if malformed && nf > 0 {
+		bad = r.Intn(nf)
+	}
+	class := "wellformed"
+	for i := 0; i < nf; i++ {
+		p := payload(r, codec, randSize(r))
+		fl, decl := "00", "="
+		if i == bad {
+			switch r.Intn(6) {
+			case 0:
+				decl = strconv.Itoa(len(p) + 1 + r.Intn(10)) // body shorter than declared (if last) / swallows the next header
+				class = "decl-long"
+			case 1:
+				if len(p) > 0 {
+					decl = strconv.Itoa(r.Intn(len(p))) // desynchronised
+					class = "decl-short"
+				}
+			case 2:
+				decl = strconv.Itoa(4194304 + 1 + r.Intn(1000)) // oversize declared
+				class = "decl-oversize"
+			case 3:
+				decl = "4294967295"
+				class = "decl-max"
+			case 4:
+				fl = common.Pick(r, []string{"01", "80", "ff"})
+				class = "flag"
+			default:
+				class = "tail"
+			}
+		}
+		total += len(p)
+		frs = append(frs, fmt.Sprintf("%s:%s:%s", fl, decl, CB(p)))
+	}
+	tl := []byte(nil)
+	if malformed && (class == "tail" || class == "wellformed") {
+		tl = common.RandBytes(r, 1+r.Intn(4), []byte{0, 0, 1, 0x80, 0xff})
+		class = "tail"
+	}
+	fr := "-"
+	if len(frs) > 0 {
+		fr = strings.Join(frs, ",")
+	}
+	ck := common.Pick(r, []string{"1048576", "1", "2/3", "5", "4/1", "7/64/1", "1000", "65536", "3/4096"})
+	if total > 4000 && (ck == "1" || ck == "2/3" || ck == "5" || ck == "4/1") {
+		ck = "4096/1/333"
+	}
+	ea := "-"
+	if ver == "h2" && (kind == "cs" || kind == "bd") && class == "wellformed" && r.Intn(5) == 0 {
+		ea = strconv.Itoa(r.Intn(nf + 1))
+		class += "-early"
+	}
+	rt := genRoute(r)
+	count("http:" + ver + ":" + class)
+	return fmt.Sprintf("http %s k=%s cd=%s rt=%s fr=%s tl=%s ck=%s %s ea=%s", ver, kind, codec, rt, fr, CB(tl), ck, genScript(r, codec), ea)
+}
+
+func genWS(r *rand.Rand) string {
+	kind := common.Pick(r, []string{"uu", "cs", "ss", "bd", "bd", "cs"})
+	codec := common.Pick(r, []string{"raw", "raw", "empty"})
+	hd := "ok:" + CB([]byte(common.Pick(r, []string{"content-type: application/grpc-web+proto\r\nx-grpc-web: 1\r\n", "", "x-user-agent: grpc-web-javascript/0.1\r\n"})))
+	class := "wellformed"
+	if r.Intn(20) == 0 {
+		hd = "bad:" + CB([]byte(common.Pick(r, []string{"no colon here", "\x00\x01", ": novalue-key", "a b: c"})))
+		class = "bad-header"
+	}
+	nm := common.Pick(r, []int{0, 1, 1, 2, 3, 4, 6})
+	if kind == "uu" || kind == "ss" {
+		nm = 1
+	}
+	var items []string
+	for i := 0; i < nm; i++ {
+		items = append(items, "d:"+CB(payload(r, codec, randSize(r))))
+	}
+	ea := "-"
+	switch r.Intn(8) {
+	case 0: // framing error as the last message
+		if kind == "cs" || kind == "bd" {
+			items = append(items, "r:"+CB(common.Pick(r, [][]byte{{}, {0, 0}, {0, 0, 0, 0, 0}, {1, 0}, {7, 1, 2}})))
+			class = "framing-error"
+			break
+		}
+		fallthrough
+	case 1: // odd but legal: ignored flow byte, wrong length bytes, finish carrying a payload, extra after finish
+		if kind == "cs" || kind == "bd" {
+			p := payload(r, codec, randSize(r))
+			odd := append([]byte{byte(common.Pick(r, []int{0, 2, 255})), 9, 9, 9, 9, 9}, p...)
+			items = append(items, "r:"+CB([]byte{0}), "r:"+CB(odd))
+			if r.Intn(2) == 0 {
+				items = append(items, "r:"+CB(append([]byte{1, 0, 0, 0, 0, 0}, payload(r, codec, randSize(r))...)))
+			} else {
+				items = append(items, "f")
+			}
+			class = "odd"
+			break
+		}
+		fallthrough
+	default:
+		items = append(items, "f")
+	}
+	if class != "framing-error" && r.Intn(5) == 0 { // ignored after the finish marker
+		items = append(items, "d:"+CB(payload(r, codec, r.Intn(20))))
+		if r.Intn(2) == 0 {
+			items = append(items, "f")
+		}
+		class += "-after-finish"
+	}
+	if (kind == "cs" || kind == "bd") && class == "wellformed" && r.Intn(8) == 0 {
+		ea = strconv.Itoa(r.Intn(nm + 1))
+		class = "early"
+	}
+	ms := "-"
+	if len(items) > 0 {
+		ms = strings.Join(items, ",")
+	}
+	count("ws:" + class)
+	return fmt.Sprintf("ws k=%s cd=%s rt=%s hd=%s ms=%s %s ea=%s", kind, codec, genRoute(r), hd, ms, genScript(r, codec), ea)
+}
+
+func (Area) Gen(r *rand.Rand, tier string, emit func(string)) {
+	// url.PathEscape on all 256 single bytes, exhaustively, every run
+	for b := 0; b < 256; b++ {
+		emit("esc " + CB([]byte{byte(b)}))
+	}
+	nEsc, nHTTP, nWS := 1500, 1200, 600
+	if tier == "thorough" {
+		nEsc, nHTTP, nWS = 30000, 30000, 10000
+	}
+	for i := 0; i < nEsc; i++ {
+		switch r.Intn(3) {
+		case 0:
+			emit("esc " + CB(randMsgText(r)))
+		case 1:
+			s := common.RandBytes(r, r.Intn(12), []byte("%%%0123456789abcdefABCDEFgG+ /\xff"))
+			emit("unesc " + CB(s))
+		default:
+			md := "-"
+			if r.Intn(3) == 0 {
+				md = CB([]byte(common.Pick(r, []string{"x-t", "grpc-status", "grpc-message", "a"}))) + ":" + CB([]byte(common.Pick(r, []string{"", "1", "v w"})))
+			}
+			emit(fmt.Sprintf("trl %d %s %s", randCode(r), CB(randMsgText(r)), md))
+		}
+	}
+	for i := 0; i < nHTTP; i++ {
+		emit(genHTTP(r))
+	}
+	for i := 0; i < nWS; i++ {
+		emit(genWS(r))
+	}
+}
